@@ -5,7 +5,7 @@
    that canonical form is what the correspondence run checks (families of
    construction paths per denotation). *)
 From Arrai Require Import Base.Val Spec.SetAlg Eval.Interp Proofs.ValOrder Proofs.SetAlgP Proofs.KeyedP Proofs.CanonP Proofs.WfP.
-From Arrai Require Import Rep.Builder Proofs.BuilderP Proofs.BuilderSeqP Proofs.BuilderDictP Proofs.BuilderAllP Proofs.BuilderBytesP Proofs.BuilderTupP.
+From Arrai Require Import Rep.Builder Proofs.BuilderP Proofs.BuilderSeqP Proofs.BuilderDictP Proofs.BuilderAllP Proofs.BuilderBytesP Proofs.BuilderTupP Proofs.BuilderArrP Proofs.BuilderLeafP Proofs.BuilderIndP.
 
 (* a = b holds exactly when both denote the same value *)
 Theorem C02_equality_is_identity_of_denotations :
@@ -184,6 +184,45 @@ Theorem C02_tuple_build_sugar_specialises :
 Proof. exact tuple_build_sugar. Qed.
 Print Assumptions C02_tuple_build_sugar_specialises.
 
+(* arrays: the Array{values, offset, count} asArray builds is a function of the set of item tuples given (one item per
+   index), whatever the insertion order and repetitions (the counter is shown to be the number of non-nil cells).  At the
+   level of denotations this needs Equal to be complete on the items, which is not proved. *)
+Theorem C02_array_representation_is_function_of_members :
+  forall vs vs', vs <> [] ->
+    (forall v, In v vs -> exists a x, v = RTupItem a x) -> (forall v, In v vs' -> exists a x, v = RTupItem a x) ->
+    (forall a x x', In (RTupItem a x) vs -> In (RTupItem a x') vs -> x = x') ->
+    (forall m, In m vs <-> In m vs') ->
+    finish_array vs = finish_array vs'.
+Proof. exact finish_array_function_of_members. Qed.
+Print Assumptions C02_array_representation_is_function_of_members.
+
+(* first-order data - numbers, character / byte tuples, empty, true, strings, byte arrays, item / entry tuples of these:
+   the Equal methods are sound on them without any invariant, so for member lists whose members, dict keys / values and
+   relation cells are first-order, C02_builder_denotes_members holds with the well-formedness hypothesis alone *)
+Theorem C02_equal_sound_on_first_order :
+  forall a, leaf a = true -> forall b, rep_equal a b = true -> abs a = abs b.
+Proof. exact leaf_sound. Qed.
+Print Assumptions C02_equal_sound_on_first_order.
+
+Theorem C02_builder_denotes_members_first_order :
+  forall ms r, build ms = BOk r -> wf_members ms -> (forall x, component ms x -> leaf x = true) ->
+    abs r = mkset (map abs ms).
+Proof. exact build_first_order_denotes_members. Qed.
+Print Assumptions C02_builder_denotes_members_first_order.
+
+(* ... and, hereditarily, on arrays and generic sets of such representations (`simple`): nested arrays and sets of
+   first-order data.  Proved with a nested induction principle for representations (Proofs/BuilderIndP.v rep_ind'). *)
+Theorem C02_equal_sound_on_simple :
+  forall a, simple a = true -> forall b, rep_equal a b = true -> abs a = abs b.
+Proof. exact simple_sound. Qed.
+Print Assumptions C02_equal_sound_on_simple.
+
+Theorem C02_builder_denotes_members_simple :
+  forall ms r, build ms = BOk r -> wf_members ms -> (forall x, component ms x -> simple x = true) ->
+    abs r = mkset (map abs ms).
+Proof. exact build_simple_denotes_members. Qed.
+Print Assumptions C02_builder_denotes_members_simple.
+
 Theorem C02_equal_soundness_is_decidable : forall ms, equal_sound_onb ms = true -> equal_sound_on ms.
 Proof. exact equal_sound_onb_ok. Qed.
 Print Assumptions C02_equal_soundness_is_decidable.
@@ -281,3 +320,7 @@ Example C02_tuple_probe :
   tuple_build [(n_char, rint 97); (n_at, rint 0)] = BOk (RTupChar 0 97) /\
   tuple_build [(n_at, REmpty); (n_char, rint 97)] = BPanic.
 Proof. repeat split; vm_compute; reflexivity. Qed.
+
+Example C02_simple_probe :
+  simple (RGen [RArr 0 [Some (RStr 0 [97] 0); None; Some (RGen [rint 1; REmpty])] 2; RTrue]) = true.
+Proof. vm_compute. reflexivity. Qed.
